@@ -612,6 +612,34 @@ Fixpoint depth_run (adaptive : bool) (max_depth max_stag cur : Z) (stags : list 
               x :: depth_run adaptive max_depth max_stag cur' r
   end.
 
+(* GenerationKeeper under a controlled clock: state after each append and the duration read at a later instant *)
+Fixpoint keeper_run (s : kstate) (apps : list (bool * Q * Q)) : list (nat * nat * Q * Q) :=
+  match apps with
+  | [] => []
+  | (imp, t, qt) :: r =>
+      let s' := keeper_append imp t s in
+      (gen_num s', stag s', stag_start s', stag_duration qt (stag_start s')) :: keeper_run s' r
+  end.
+
+Definition kobs_eqb (a b : nat * nat * Q * Q) : bool :=
+  match a, b with
+  | (g1, s1, t1, d1), (g2, s2, t2, d2) => Nat.eqb g1 g2 && Nat.eqb s1 s2 && Qeq_bool t1 t2 && Qeq_bool d1 d2
+  end.
+
+(* the property's reading of the stagnation clock: it restarts on the first recorded population and on
+   improving ones, never otherwise; the reported duration is the elapsed time since then, cut to whole seconds *)
+Fixpoint keeper_clock_ok (first : bool) (restart : Q) (apps : list (bool * Q * Q)) (obs : list (nat * nat * Q * Q)) : bool :=
+  match apps, obs with
+  | [], [] => true
+  | (imp, t, qt) :: r, (_, _, start, dur) :: o =>
+      let restart' := if first || imp then t else restart in
+      Qeq_bool start restart'
+      && implb (Qle_bool restart' qt && Qltb (qt - restart') 1440)
+               (Qle_bool dur (qt - restart') && Qltb (qt - restart' - (1 # 60)) dur)
+      && keeper_clock_ok false restart' r o
+  | _, _ => false
+  end.
+
 Inductive ucase :=
 | UTimer (timeout : option Q) (init minutes : Q) (iter : option Z) (old : bool) (obs_reached obs_flag : bool)
 | UBaseTimer (timeout : option Q) (elapsed : Q) (obs : bool)
@@ -624,6 +652,8 @@ Inductive ucase :=
 | UAdaptive (pop_size : Z) (maxp : option Z) (calls : list (Z * bool * bool * bool))
             (obs_init : res Z) (obs : list (res Z))
 | UDepth (adaptive : bool) (start max_depth max_stag : Z) (stags : list Z) (obs : list Z)
+| UKeeper (t_create : Q) (appends : list (bool * Q * Q))     (* is_any_improved observed, time of the append, time of the query *)
+          (obs : list (nat * nat * Q * Q))                   (* generation_num, stagnation count, stagnation start, duration *)
 | UDiversity (maxp : option Z) (unique : Z) (obs : Z)    (* size handed to the evaluator by the diversity check *)
 | UTables (gp gen common req : list string).
 
@@ -653,6 +683,7 @@ Definition uagree (c : ucase) : bool :=
          end
   | UDepth adaptive start max_depth max_stag stags obs =>
       list_eqb Z.eqb (depth_run adaptive max_depth max_stag start stags) obs
+  | UKeeper t_create apps obs => list_eqb kobs_eqb (keeper_run (keeper_init t_create) apps) obs
   | UDiversity maxp unique obs => Z.eqb (diversity_refill maxp unique) obs
   | UTables gp gen common req =>
       same_set_s gp gp_fields && same_set_s gen gen_fields
@@ -707,6 +738,7 @@ Definition uholds (c : ucase) : bool :=
          end
   | UDepth adaptive start max_depth max_stag stags obs =>
       forallb (fun d => Z.leb d (Z.max start max_depth)) obs
+  | UKeeper t_create apps obs => keeper_clock_ok true t_create apps obs
   | UDiversity maxp unique obs =>
       match truthy_max maxp with Some m => implb (Z.leb unique m) (Z.leb obs m) | None => true end
   | _ => true
@@ -829,6 +861,23 @@ Definition h_stagnation (r : orun) : bool :=
      && match est (r_lim r) with Some e => Qltb (p_stagdur (fst ab)) e | None => true end)
     (step_pairs (r_pops r)).
 
+(* the stagnation TIME limit, measured independently of the keeper's own clock: the clock restarts at the
+   first recorded population and at populations that reset the stagnation counter; the time between the callback
+   of that population and the callback before a step is a lower bound of the stagnation time at the stop test *)
+Fixpoint stagtime_ok (e : Q) (restart : Q) (prev : option opop) (ps : list opop) : bool :=
+  match ps with
+  | [] => true
+  | p :: r =>
+      match prev with
+      | Some a => implb (is_evolved p) (Qltb ((Qfloor ((p_minutes a - restart) * 60)) # 60) e)
+      | None => true
+      end
+      && stagtime_ok e (if Nat.eqb (p_gen p) 1 || Nat.eqb (p_stag p) 0 then p_minutes p else restart) (Some p) r
+  end.
+
+Definition h_stagnation_time (r : orun) : bool :=
+  match est (r_lim r) with Some e => stagtime_ok e 0 None (r_pops r) | None => true end.
+
 Definition h_time (r : orun) : bool :=
   match tmo (r_lim r) with
   | Some t =>
@@ -864,11 +913,11 @@ Definition h_adaptive (r : orun) : bool :=
 Definition h_terminates (r : orun) : bool := negb (r_timed_out r).
 
 Definition rholds (r : orun) : bool :=
-  h_terminates r && h_accepts r && h_generations r && h_stagnation r && h_time r && h_zero_budget r && h_max_pop r && h_adaptive r.
+  h_terminates r && h_accepts r && h_generations r && h_stagnation r && h_stagnation_time r && h_time r && h_zero_budget r && h_max_pop r && h_adaptive r.
 
 Definition rcheck (r : orun) : list bool :=
   [ragree r; h_accepts r; h_generations r; h_stagnation r; h_time r; h_zero_budget r; h_max_pop r; h_adaptive r;
-   h_terminates r].
+   h_terminates r; h_stagnation_time r].
 
 (* ---- observed GOLEM(...) facade ---- *)
 Record oapi := {
